@@ -846,4 +846,9 @@ def bootTimeRun (returnsFresh : Bool) : Option Rat → List FileState → List (
   | _, [] => []
   | g, s :: ss => let r := bootTimeCall returnsFresh g s; r.1 :: bootTimeRun returnsFresh r.2 ss
 
+/-- the module global after such a history (what `Process.create_time()` adds the start time to) -/
+def bootTimeGlobal : Option Rat → List FileState → Option Rat
+  | g, [] => g
+  | g, s :: ss => bootTimeGlobal (bootTimeCall true g s).2 ss
+
 end Psutil.C19
